@@ -127,4 +127,54 @@ def run(ctx) -> list[Inst]:
             insts.append(Inst(RULE, fname, construct, 'violation',
                               msg=f'{rname} does not implement its specification: {d[:600]}',
                               file=rel, line=f.node.lineno, props=props))
+    insts += _no_visited_cut(ctx)
+    return insts
+
+
+def _no_visited_cut(ctx) -> list[Inst]:
+    """T3/T4 side condition - the propagation is a chaotic iteration towards the greatest fixed point: a child is
+    re-evaluated every time one of its parents changes.  A 'visited' collection consulted before a child is
+    examined (`if child in visited: continue`) is compatible with that only if children are marked when their label
+    CHANGES (labels only ever go from True to False); marking them when they are merely examined stops later
+    re-evaluations, the result is no longer the fixed point and depends on the order of the children."""
+    from ..core import own_nodes, stmt_text
+    prog = ctx.prog
+    insts = []
+    for fname in ('propagate_viability_from_node', 'propagate_necessity_from_node'):
+        f = prog.func(fname)
+        cfg = ctx.cfg(f)
+        rel = f.module.relpath
+        label = 'is_viable' if 'viability' in fname else 'is_necessary'
+        tests = {}
+        for n in own_nodes(f.node):
+            if isinstance(n, ast.Compare) and len(n.ops) == 1 and isinstance(n.ops[0], (ast.In, ast.NotIn)) \
+                    and isinstance(n.comparators[0], ast.Name):
+                tests.setdefault(n.comparators[0].id, []).append(n)
+        bad = None
+        for V, ts in tests.items():
+            for n in own_nodes(f.node):
+                if isinstance(n, ast.Call) and isinstance(n.func, ast.Attribute) and n.func.attr in ('add', 'append') \
+                        and isinstance(n.func.value, ast.Name) and n.func.value.id == V:
+                    node = cfg.owner(n)
+                    on_change = False
+                    for g in cfg.nodes:
+                        if g.kind == 'if' and g is not node and cfg.dominates(g, node) and label in stmt_text(g.ast.test) \
+                                and any(isinstance(c, ast.Compare) and isinstance(c.ops[0], (ast.NotEq, ast.Eq, ast.IsNot, ast.Is))
+                                        for c in ast.walk(g.ast.test)):
+                            on_change = True
+                    if not on_change:
+                        bad = (V, n, ts[0])
+        construct = f'{fname}: no child is skipped because it was merely examined before'
+        if bad:
+            V, n, t = bad
+            insts.append(Inst(
+                RULE, fname, construct, 'violation',
+                msg=(f"'{stmt_text(t)}' skips children recorded by '{stmt_text(n)}', and that recording is not tied to a "
+                     f"change of {label}: a child examined while another parent still held the label is never "
+                     f"re-evaluated when that parent loses it - the labels are no longer the greatest fixed point and "
+                     f"depend on the order of the children lists"),
+                file=rel, line=n.lineno, props=('C08',)))
+        else:
+            insts.append(Inst(RULE, fname, construct, 'ok', file=rel, line=f.node.lineno, props=('C08',),
+                              nontrivial=bool(tests)))
     return insts
